@@ -204,4 +204,71 @@ def closedOrder (g : Graph) : List Visit → List Nat → Bool
     | none => false
   | .exit _ :: rest, avail => closedOrder g rest avail
 
+/-! ### Well-formedness of a traced graph -/
+
+/-- Nested graphs mentioned in a value. -/
+def E.grefsOf : E → List Nat
+  | .gref g => [g]
+  | .cons h t => grefsOf h ++ grefsOf t
+  | .node _ a => grefsOf a
+  | _ => []
+
+/-- All operand values of an application whose expressions `_eval_app` asks for. -/
+def App.operandEs : App → List E
+  | .call fn args kwargs _ _ => fn :: args ++ kwargs.map (·.2)
+  | .callInplace xs fn args kwargs _ _ => xs :: fn :: args ++ kwargs.map (·.2)
+  | .getattr obj _ _ => [obj]
+  | .getitem obj key _ => [obj, key]
+  | .updateitem obj key value _ _ => [obj, key, value]
+  | .operator _ operands _ => operands
+  | .assert_ xs cond _ _ => [xs, cond]
+  | .cast input _ => [input]
+  | _ => []
+
+/-- Tracers an operand can lead the traversal to: its own variables and the variables of the outputs of the nested
+graphs it mentions. -/
+def cand (g : Graph) (x : E) : List Nat :=
+  x.vars ++ x.grefsOf.flatMap (fun k => match g.graphs[k]? with | some sg => sg.output.vars | none => [])
+
+/-- Well-formedness of a traced graph (decidable):
+  * a tracer is among the registered outputs of its origin;
+  * applications are in topological order: every tracer an operand leads to (directly or as the output of a nested graph
+    operand) has an earlier origin;
+  * the output of a nested graph mentions no graph;
+  * the tracers in the output of a nested graph that an application mentions have earlier origins. -/
+def Graph.WF (g : Graph) : Bool :=
+  (List.range g.origin.length).all (fun t => match g.originOf t with
+    | some (_, a) => (regKeys a.out).contains (.var t)
+    | none => true) &&
+  (g.apps.zipIdx).all (fun p => (p.1.genOperands.flatMap (cand g)).all (fun t => match g.originOf t with
+    | some (j, _) => decide (j < p.2)
+    | none => true)) &&
+  g.graphs.all (fun sg => sg.output.grefsOf.isEmpty) &&
+  (g.apps.zipIdx).all (fun p => (p.1.operandEs.flatMap E.grefsOf).all (fun k => match g.graphs[k]? with
+    | some sg => sg.output.vars.all (fun t => match g.originOf t with
+      | some (j, _) => decide (j < p.2)
+      | none => true)
+    | none => true))
+
+/-- While a nested graph is open (between `enter g` and `exit g`) no visited application mentions it, and the output of
+a graph that is closed mentions no open graph: the function variable of a graph is not read inside its own body. -/
+def noSelfRef (g : Graph) : List Visit → List Nat → Bool
+  | [], _ => true
+  | .app i :: rest, pend =>
+    (match g.apps[i]? with
+      | some a => (a.operandEs.flatMap E.grefsOf).all (fun k => !pend.contains k)
+      | none => true) && noSelfRef g rest pend
+  | .enter gi :: rest, pend => noSelfRef g rest (gi :: pend)
+  | .exit gi :: rest, pend =>
+    (match g.graphs[gi]? with
+      | some sg => sg.output.grefsOf.all (fun k => !pend.contains k)
+      | none => true) && noSelfRef g rest (pend.erase gi)
+
+/-- The graphs that are open after a traversal. -/
+def pendAfter : List Visit → List Nat → List Nat
+  | [], pend => pend
+  | .app _ :: rest, pend => pendAfter rest pend
+  | .enter gi :: rest, pend => pendAfter rest (gi :: pend)
+  | .exit gi :: rest, pend => pendAfter rest (pend.erase gi)
+
 end Einx.Compile
